@@ -70,6 +70,18 @@ def sigma(n, A, A2, ctl_param_angles=None, max_ctl=3):
     return out
 
 
+def ctl_angles(A):
+    """Angle alphabet of controlled rotations at depth 1: the two generic values plus both sides of the 2*pi and 4*pi
+    periods (a controlled rotation is 4*pi-periodic: any 2*pi-wrap of its angle flips the sign of the control=1 branch)."""
+    return [A[1], A[2], 2 * PI + 0.61, 4 * PI - 0.3, -2 * PI - 0.7, 2 * PI, -2 * PI]
+
+
+def sigma_d1(n, A, backend="cirq"):
+    if backend == "sympy" and n == 4:
+        return sigma(n, A[1:3], A[1:2])
+    return sigma(n, A, A[1:3], ctl_param_angles=ctl_angles(A), max_ctl=(3 if backend == "cirq" else 2 if n >= 3 else 3))
+
+
 def reduced(n, A2):
     """Smaller alphabet for depth >= 2 on the slow sympy backend (non-commuting neighbours, controls, both orders)."""
     def G(name, t, c=None, p=""):
@@ -323,11 +335,58 @@ def check_sampled(case, acc):
         acc.out(o)
 
 
+def check_sampled_bulk(case, acc):
+    """Chunked-sampling path of Backend._statevector_to_frequencies: shot numbers on both sides of (multiples of) the chunk size.
+    The scripted sampler answers each bulk draw with a constant array (one choice over the support per draw, all explored):
+    the draw sizes must add up to n_shots and the returned frequencies must be the scripted counts / n_shots."""
+    from tangelo.linq import get_backend
+    import tangelo.linq.target.backend as BK
+    word, n, shots, bname = case["word"], case["n"], case["n_shots"], case.get("backend", "cirq")
+    c = mk_circ(word, n)
+    f_ref = {k: v for k, v in SV.freqs(SV.run(word, n), n).items() if v >= 1e-10}
+
+    def run(ch):
+        be = get_backend(bname, n_shots=shots)
+        with seams.patched(BK, "stats", seams.StatsProxy(ch)):
+            fr, _ = be.simulate(c)
+        return {k: float(v) for k, v in fr.items()}
+
+    n_exec = 0
+    for choices, trace, infos, res in choicetree.explore(run, check_replay=(shots < 5 * 10 ** 6)):
+        n_exec += 1
+        acc.transitions += 1
+        acc.evals += 1
+        want, total = {}, 0
+        for info, ch_ in zip(infos, choices):
+            total += info["size"]
+            if info["size"] == 0:
+                continue
+            if info.get("bulk"):
+                b = format(int(info["xk"][ch_]), f"0{n}b")[::-1]
+                want[b] = want.get(b, 0) + info["size"] / shots
+            else:
+                for j in choicetree.sequences(len(info["xk"]), info["size"])[ch_]:
+                    b = format(int(info["xk"][j]), f"0{n}b")[::-1]
+                    want[b] = want.get(b, 0) + 1.0 / shots
+            handed = {format(int(x), f"0{n}b")[::-1]: p_ for x, p_ in zip(info["xk"], info["pk"])}
+            if freq_diff(handed, f_ref) > TOL:
+                acc.violation(f"{bname}/sampled/distribution-handed-to-sampler/{sig(word)}", case, {"handed": handed, "ref": f_ref},
+                              group=f"{bname}/sampled/distribution-handed-to-sampler")
+        if total != shots or not isinstance(res, dict) or freq_diff(res, want) > 1e-12 or set(res) != set(want) \
+                or abs(sum(res.values()) - 1) > 1e-9:
+            acc.violation(f"{bname}/sampled/chunked-draws-do-not-add-up-to-n_shots", case,
+                          {"n_shots": shots, "draw_sizes": [i["size"] for i in infos], "returned": res, "want": want},
+                          group=f"{bname}/sampled/chunked-draws")
+        acc.out(("bulk", shots, tuple(sorted(res.items())) if isinstance(res, dict) else repr(res)))
+    acc.states += n_exec
+    acc.nt(("sampled-bulk", shots))
+
+
 # ---------------------------------------------------------------------------------------------------------------------
 
 def bounds(tier, seed):
     A = angles(seed)
-    return {"angles": A, "sigma_sizes": {n: len(sigma(n, A, A[1:3])) for n in (1, 2, 3, 4)},
+    return {"angles": A, "sigma_sizes": {n: len(sigma_d1(n, A)) for n in (1, 2, 3, 4)}, "controlled_rotation_angles": ctl_angles(A),
             "reduced_sizes": {n: len(reduced(n, A[1:3])) for n in (2, 3)},
             "tier": tier}
 
@@ -337,13 +396,13 @@ def shards(tier, seed):
     sh = []
     # depth 1, every gate of Sigma_n, n = 1..4, plus idle qubits (register wider than used) - cirq: all basis states
     for n in (1, 2, 3, 4):
-        S = sigma(n, A, A[1:3])
+        S = sigma_d1(n, A)
         step = 40
         for i in range(0, len(S), step):
             sh.append({"kind": "d1", "backend": "cirq", "n": n, "lo": i, "hi": min(len(S), i + step), "seed": seed})
     # depth 1 on sympy: Sigma_3 (+ Sigma_2), basis states 1 and 2^n-2, dense
     for n in ((2, 3) if tier == "quick" else (1, 2, 3, 4)):
-        S = sigma(n, A, A[1:3]) if n < 4 else sigma(n, A[1:3], A[1:2])
+        S = sigma_d1(n, A, "sympy")
         step = 8 if n <= 3 else 10
         for i in range(0, len(S), step):
             sh.append({"kind": "d1", "backend": "sympy", "n": n, "lo": i, "hi": min(len(S), i + step), "seed": seed})
@@ -368,6 +427,9 @@ def shards(tier, seed):
     sh.append({"kind": "idle", "seed": seed})
     sh.append({"kind": "empty", "seed": seed})
     sh.append({"kind": "sampled", "seed": seed, "tier": tier})
+    CH = 10 ** 7  # chunk size used by the sampling loops (a local constant of the implementation)
+    for shots in ((CH - 1, CH, CH + 1, 2 * CH) if tier == "quick" else (3, 64, 65, CH - 1, CH, CH + 1, 2 * CH - 1, 2 * CH, 2 * CH + 1, 3 * CH)):
+        sh.append({"kind": "sampled_bulk", "seed": seed, "n_shots": shots})
     return sh
 
 
@@ -378,7 +440,7 @@ def run_shard(sh):
     k = sh["kind"]
     if k == "d1":
         n = sh["n"]
-        S = sigma(n, A, A[1:3]) if not (sh["backend"] == "sympy" and n == 4) else sigma(n, A[1:3], A[1:2])
+        S = sigma_d1(n, A, sh["backend"])
         for g in S[sh["lo"]:sh["hi"]]:
             case = {"kind": "word", "word": [g], "n": n, "basis": True, "seed": seed}
             acc.states += 1
@@ -453,6 +515,9 @@ def run_shard(sh):
                                    "want_sv": True}, acc)
         # (the sympy backend ignores n_shots and returns exact frequencies: no sampled mode to explore there)
         acc.sample({"kind": "sampled", "word": [al[0], al[2]], "n": 2, "n_shots": 2})
+    elif k == "sampled_bulk":
+        check_sampled_bulk({"kind": "sampled_bulk", "word": [["H", [0], None, "", False]], "n": 1, "n_shots": sh["n_shots"],
+                            "backend": "cirq"}, acc)
     return acc
 
 
@@ -468,6 +533,8 @@ def replay_case(case):
         check_empty(case, acc)
     elif k == "sampled":
         check_sampled(case, acc)
+    elif k == "sampled_bulk":
+        check_sampled_bulk(case, acc)
     return acc
 
 
